@@ -311,7 +311,20 @@ func checkSign(c sigCase) (err error) {
 	classes := []string{fmt.Sprintf("alg=%d", c.Alg), "type=" + typeName(typ), fmt.Sprintf("records=%d", len(c.Set)), fmt.Sprintf("distinct=%d", len(distinct)),
 		fmt.Sprintf("wildcard=%v", wild), fmt.Sprintf("rdata-names=%v", names), fmt.Sprintf("lowertype=%v", lowerTypes[typ]), fmt.Sprintf("rootzone=%v", len(c.Signer) == 0),
 		fmt.Sprintf("origttl-explicit=%v", c.OrigTTL != 0), fmt.Sprintf("rdata-embeds-another-record=%v", c.EmbeddedImage),
-		fmt.Sprintf("keytag-zero=%v", tag == 0), fmt.Sprintf("owner-case-differs-between-records=%v", mixed), fmt.Sprintf("letters-as-ddd=%v", c.Spell.any())}
+		fmt.Sprintf("keytag-zero=%v", tag == 0), fmt.Sprintf("owner-case-differs-between-records=%v", mixed), fmt.Sprintf("letters-as-ddd=%v", c.Spell.any()),
+		fmt.Sprintf("keytag-fold-carries=%v", tagFoldCarries(base.keyRdata()))}
+	{
+		// round 9: the backslash octet followed by octets that make the pair read like an escape
+		look, code := hasLookalike(owner) || hasLookalike(c.SignerAs), hasBackslashLetterCode(owner) || hasBackslashLetterCode(c.SignerAs)
+		for _, r := range c.Set {
+			x := cloneRec(r)
+			mapNames(&x, func(n wm.Name) wm.Name {
+				look, code = look || hasLookalike(n), code || hasBackslashLetterCode(n)
+				return n
+			})
+		}
+		classes = append(classes, fmt.Sprintf("octets-that-read-like-an-escape=%v", look), fmt.Sprintf("backslash-octet-then-digits-of-a-letter-code=%v", code))
+	}
 	if c.Spell.any() {
 		up := spelledLetters(owner, c.Spell.Owner, true) || spelledLetters(c.SignerAs, c.Spell.Signer, true)
 		for _, r := range c.Set {
@@ -753,6 +766,23 @@ func checkSign(c sigCase) (err error) {
 		w.Signature = s
 		return true
 	}
+	// round 9: another key tag in the RRSIG, with the signature made again by the holder of the key so
+	// that nothing but "the key's tag matches the RRSIG" stands in the way: the neighbours of the tag
+	// and the values that other ways of finishing the appendix B sum give (carries folded in until none
+	// is left - differs from the tag exactly in the carrying case; carries dropped)
+	for _, kt := range []struct {
+		name string
+		tag  uint16
+	}{
+		{"key tag +1 (signature made to fit)", tag + 1},
+		{"key tag -1 (signature made to fit)", tag - 1},
+		{"key tag := the sum with the carries folded in until none is left (signature made to fit)", endAroundTag(signed.keyRdata())},
+		{"key tag := the low 16 bits of the sum, carries dropped (signature made to fit)", uint16(keyTagSum(signed.keyRdata()))},
+	} {
+		if kt := kt; kt.tag != tag {
+			add(kt.name, func(w *world) bool { w.F.KeyTag = kt.tag; return signAs(w) })
+		}
+	}
 	// sibling algorithm numbers: same key material, another number in the DNSKEY or in the RRSIG, with
 	// key tag and signature recomputed so that nothing but the number disagrees (RFC 4034 2.1.3 /
 	// 3.1.2: the key's algorithm must be the RRSIG's - 5 and 7 share key format and hash, 8 / 10 the
@@ -1047,6 +1077,28 @@ func genSign(t *rapid.T) sigCase {
 			sub[0] = sub[0][:63]
 		}
 	}
+	// round 9: label octets that read like an escape sequence (the backslash octet followed by digits,
+	// by a letter, a dot, another backslash) in the zone (bit 0), in the owner below it (bit 1) and in
+	// RDATA names (bit 2) - see escapeLookalike
+	look := 0
+	if rapid.IntRange(0, 3).Draw(t, "lookalike") == 0 {
+		look = rapid.IntRange(1, 7).Draw(t, "looksites")
+	}
+	lookInto := func(t *rapid.T, n wm.Name, tag string) wm.Name {
+		frag := escapeLookalike(t)
+		if len(n) == 0 {
+			return wm.Name{frag}
+		}
+		k := rapid.IntRange(0, len(n)-1).Draw(t, tag+"label")
+		n[k] = withLookalike(n[k], frag, rapid.IntRange(0, 2).Draw(t, tag+"where"))
+		return n
+	}
+	if look&1 != 0 && len(zone) > 0 {
+		zone = lookInto(t, zone, "lookzone")
+	}
+	if look&2 != 0 {
+		sub = lookInto(t, sub, "looksub")
+	}
 	wild := rapid.IntRange(0, 3).Draw(t, "wild") == 0
 	if wild {
 		if len(sub) > 0 && rapid.Bool().Draw(t, "wilddeep") {
@@ -1101,7 +1153,7 @@ func genSign(t *rapid.T) sigCase {
 	class := rapid.SampledFrom([]uint16{1, 1, 1, 1, 3, 4, 254, 255, 0, 65535}).Draw(t, "class")
 	// RDATA names: a small pool related to the owner, in mixed case
 	pool := []wm.Name{owner.Clone(), zone.Clone(), gen.FlipCase(t, owner), append(wm.Name{[]byte("Mail")}, zone.Clone()...)}
-	ro := &gen.Opts{Level: gen.WireValid, MaxBlob: 24, NameGen: func(t *rapid.T) wm.Name {
+	plainName := func(t *rapid.T) wm.Name {
 		if rapid.Bool().Draw(t, "pooled") {
 			n := pool[rapid.IntRange(0, len(pool)-1).Draw(t, "pn")]
 			if n.Valid() {
@@ -1109,6 +1161,15 @@ func genSign(t *rapid.T) sigCase {
 			}
 		}
 		return gen.Name(t, gen.NameOpts{MaxLabs: 4, MaxLabel: 8, Plain: no.Plain})
+	}
+	ro := &gen.Opts{Level: gen.WireValid, MaxBlob: 24, NameGen: func(t *rapid.T) wm.Name {
+		n := plainName(t)
+		if look&4 != 0 && rapid.IntRange(0, 2).Draw(t, "lookrd") > 0 {
+			if m := lookInto(t, n.Clone(), "lookrd"); m.Valid() {
+				return m
+			}
+		}
+		return n
 	}}
 	n := rapid.SampledFrom([]int{1, 1, 2, 2, 3, 4, 6}).Draw(t, "n")
 	for i := 0; i < n; i++ {
@@ -1265,6 +1326,17 @@ func genSign(t *rapid.T) sigCase {
 					} else {
 						c.KeyFlags = f
 					}
+				}
+			}
+		}
+	} else if rapid.IntRange(0, 6).Draw(t, "tagcarry") == 0 {
+		// (d, round 9) A key for which the one folding step of the key tag computation overflows 16 bits
+		// (RFC 4034 appendix B drops that carry): again steered through the flags word, see flagsForTagCarry.
+		pick := rapid.IntRange(0, 1<<12).Draw(t, "tagcarrypick")
+		if priv, err := privFor(c.Alg, c.KeySlot, c.KeySeed); err == nil {
+			if oct, err := ref.KeyOctets(c.Alg, ref.PublicOf(priv)); err == nil {
+				if f, ok := flagsForTagCarry(c.Alg, oct, pick); ok {
+					c.KeyFlags = f
 				}
 			}
 		}
